@@ -166,6 +166,9 @@ func (s *serverStream) SetHeader(md metadata.MD) error {
 }
 
 func (s *serverStream) SendHeader(md metadata.MD) error {
+	if s.ctx.Err() != nil {
+		return s.closeErrLocked() // the call has ended: nothing is sent to a client that has gone
+	}
 	s.headerM.Lock()
 	defer s.headerM.Unlock()
 
